@@ -11,6 +11,8 @@
    real types and compares every step with RunC06.v).  Statements only. *)
 From Compio.Model Require Import Base SharedFd.
 From Compio.Thm Require Import SharedFdThm.
+From Compio.Gen Require Frag.
+From Compio.Thm Require FragCompatThm.
 
 (* ---- closed exactly once --------------------------------------------- *)
 
@@ -371,3 +373,21 @@ Lemma C06_multishot_unreaped_lost_refuted :
             mlost s = 3 /\ m_settled s = true.
 Proof. eexists. split; [vm_compute; reflexivity|]. split; reflexivity. Qed.
 Print Assumptions C06_multishot_unreaped_lost_refuted.
+
+(* ---- source tie (translated from the Rust source on every run by tools/rs2v.py
+        into gen/Frag.v; an edit of the function changes the generated definition) ---- *)
+(* Drop for SharedFd (compio-driver/src/fd.rs): `strong_count == 2 && waits` as the source has
+   it now is what the model's dropper decides with its two reads (DCount, then DWaits) when
+   nothing runs between them: it goes on to wake the registered closer exactly when the
+   translated condition holds, otherwise straight to the decrement *)
+Theorem C06_drop_condition_is_source : forall s i,
+  nth_error (droppers s) i = Some DCount ->
+  exists s1, drop_step s i = Some s1 /\ strong s1 = strong s /\ waits s1 = waits s /\
+    (Nat.eqb (strong s) 2 = false ->
+       nth_error (droppers s1) i = Some DDec /\ Frag.fd_drop_wakes (strong s) (waits s) = false) /\
+    (Nat.eqb (strong s) 2 = true ->
+       nth_error (droppers s1) i = Some DWaits /\
+       exists s2, drop_step s1 i = Some s2 /\
+         nth_error (droppers s2) i = Some (if Frag.fd_drop_wakes (strong s) (waits s) then DWake else DDec)).
+Proof. exact FragCompatThm.fd_drop_tie. Qed.
+Print Assumptions C06_drop_condition_is_source.
